@@ -6,8 +6,8 @@ def CFG(R, FZ):
         "C01": dict(pkg="c01", level="exploration", runs=[R(shards=(8, 16))]),
         "C02": dict(pkg="c02", level="exploration", runs=[R(shards=(8, 16))]),
         "C03": dict(pkg="c03", level="exploration", runs=[R(shards=(8, 16))]),
-        "C04": dict(pkg="c04", level="exploration", runs=[R(shards=(8, 16))]),
-        "C05": dict(pkg="c05", level="exploration", runs=[R(shards=(8, 16))]),
+        "C04": dict(pkg="c04", level="exploration", runs=[R(shards=(8, 16)), R(name="race", race=True, run="TestConcurrent", shards=(2, 4))]),
+        "C05": dict(pkg="c05", level="exploration", runs=[R(shards=(8, 16)), R(name="race", race=True, run="TestConcurrent", shards=(2, 4))]),
         "C06": dict(pkg="c06", level="exploration", runs=[R(shards=(8, 16))]),
         "C10": dict(pkg="c10", level="exploration", runs=[R(shards=(8, 16), timeout=(300, 3000)), FZ("FuzzValue", seconds=45), FZ("FuzzPackage", seconds=90), FZ("FuzzChannel", seconds=90)]),
         "C07": dict(pkg="c07", level="exploration", runs=[R(shards=(8, 16))]),
@@ -18,8 +18,8 @@ def CFG(R, FZ):
         "C13": dict(pkg="c13", level="exploration", runs=[R(name="race", race=True, shards=(8, 16), timeout=(300, 3000))]),
         "C14": dict(pkg="c14", level="fault_enumeration", runs=[R(shards=(8, 16))]),
         "C15": dict(pkg="c15", level="exploration", runs=[R(shards=(4, 16))]),
-        "C16": dict(pkg="c16", level="exploration", runs=[R(shards=(4, 16))]),
-        "C17": dict(pkg="c17", level="exploration", runs=[R(shards=(4, 16), timeout=(300, 3000)), FZ("FuzzParse", seconds=90)]),
+        "C16": dict(pkg="c16", level="exploration", runs=[R(shards=(4, 16)), R(name="race", race=True, run="TestConcurrent", shards=(2, 4))]),
+        "C17": dict(pkg="c17", level="exploration", runs=[R(shards=(4, 16), timeout=(300, 3000)), R(name="race", race=True, run="TestConcurrent", shards=(2, 4)), FZ("FuzzParse", seconds=90)]),
         "C18": dict(pkg="c18", level="exploration", runs=[R(name="race", race=True, shards=(4, 16))]),
         "C19": dict(pkg="c19", level="exploration", runs=[R(shards=(4, 16))]),
     }
